@@ -32,7 +32,7 @@
 //!  9 outer-join-filter-on-nullable-side-join-key (physical FilterPushdown)   10 filter-below-empty-grouping-set
 //! 11 pred-subquery-correlated-global-aggregate (count bug for EXISTS/IN/ANY/ALL)   12 union-constant-columns-order-by
 //! 13 window-aggregate-of-literal    14 sum-of-constant-derived-column    15 union-empty-first-branch-names (outcome-keyed)
-//! 16 nullability-mismatch:bool-test, :case-then-in-when and :correlated-scalar-subquery (outcome-keyed Internal errors)
+//! 16 nullability-mismatch:bool-test, :case-then-in-when, :correlated-scalar-subquery and :coalesce (outcome-keyed Internal errors)
 //! 17 window-partition-by-not-ordered (outcome-keyed Execution error)   18 nested-offset-without-limit (physical LimitPushdown)
 //! 20 filter-above-join-duplicate-column-names (same root cause as 9)   21 in-list-conjunction-folded-to-false (= C04 finding)
 //! 19 decorrelate-duplicate-inner-column-names (correlation predicates on equally named inner columns collapse)
@@ -128,7 +128,8 @@ pub fn join_mixed_null_equality(q: &Query) -> bool {
                 if let Some(t) = &s.from {
                     let (mut j, mut i) = (0, false);
                     count(t, &mut j, &mut i);
-                    if j >= 2 && i {
+                    // a second join, or a WHERE (its equalities become join keys of the same NullsEqual join)
+                    if i && (j >= 2 || s.where_.is_some()) {
                         *found = true;
                     }
                 }
@@ -294,6 +295,26 @@ pub fn in_list_conjunction(q: &Query) -> bool {
                     found = true;
                 }
             }
+        }
+    });
+    found
+}
+
+pub fn has_coalesce(q: &Query) -> bool {
+    let mut found = false;
+    refsql::visit_exprs(q, &mut |e| {
+        if matches!(e, Expr::Coalesce(_)) {
+            found = true
+        }
+    });
+    found
+}
+
+pub fn has_quantified(q: &Query) -> bool {
+    let mut found = false;
+    refsql::visit_exprs(q, &mut |e| {
+        if matches!(e, Expr::Quantified { .. }) {
+            found = true
         }
     });
     found
@@ -607,6 +628,7 @@ pub fn sum_of_constant_derived_column(q: &Query) -> bool {
 }
 
 /// a nested (non top-level) query with OFFSET but no LIMIT (known finding `nested-offset-without-limit`)
+#[allow(dead_code)]
 pub fn nested_offset_without_limit(q: &Query) -> bool {
     let mut n = 0;
     let mut found = false;
@@ -990,9 +1012,7 @@ pub fn shape_signature(q: &Query) -> Option<String> {
     if decorrelate_duplicate_inner_names(q) {
         return Some("decorrelate-duplicate-inner-column-names".into());
     }
-    if nested_offset_without_limit(q) {
-        return Some("nested-offset-without-limit".into());
-    }
+    // `nested-offset-without-limit` is FIXED in /repo (commit 5f591345): no exclusion any more
     if sum_of_constant_derived_column(q) {
         return Some("sum-of-constant-derived-column".into());
     }
@@ -1033,8 +1053,8 @@ impl Property for C01 {
             return Some(sig);
         }
         // outcome-keyed signatures: construct present AND the engine answers with exactly that internal error
-        let (bt, cw, nu, wi, cs) = (has_bool_test(q), has_searched_case(q), has_nested_union(q), has_window(q), has_correlated_scalar(q));
-        if bt || cw || nu || wi || cs {
+        let (bt, cw, nu, wi, cs, co) = (has_bool_test(q), has_searched_case(q), has_nested_union(q), has_window(q), has_correlated_scalar(q), has_coalesce(q));
+        if bt || cw || nu || wi || cs || co {
             let out = engine_run(case, &refsql::to_sql(q));
             if nullability_mismatch(&out) {
                 if bt {
@@ -1045,6 +1065,9 @@ impl Property for C01 {
                 }
                 if cs {
                     return Some("nullability-mismatch:correlated-scalar-subquery".into());
+                }
+                if co {
+                    return Some("nullability-mismatch:coalesce".into());
                 }
             }
             if wi && matches!(&out.outcome, DfOutcome::Error(e) if e.class == ErrClass::Execution && e.message.contains("Expects PARTITION BY expression to be ordered")) {
@@ -1078,7 +1101,7 @@ impl Property for C01 {
             (_, DfOutcome::Timeout) => base(CaseResult::inconclusive("engine timeout")),
             // a decorrelation rule giving up with a schema error is this engine's way of rejecting an unsupported
             // correlated-subquery shape (no rows are produced): discard, counted under its own reason
-            (_, DfOutcome::Error(e)) if e.stage == vf_df::Stage::Optimize && e.class == ErrClass::SchemaError && (decorrelation_rule_failed(&e.message) || (e.message.contains("No field named") && refsql::is_correlated(&case.query))) => {
+            (_, DfOutcome::Error(e)) if e.stage == vf_df::Stage::Optimize && e.class == ErrClass::SchemaError && (decorrelation_rule_failed(&e.message) || (e.message.contains("No field named") && (refsql::is_correlated(&case.query) || has_quantified(&case.query)))) => {
                 base(CaseResult::discard("unsupported correlated subquery: a decorrelation rule failed with a schema error")).label("engine-rejected").label("decorrelation-failed")
             }
             (_, DfOutcome::Error(e)) if e.class.is_clean_rejection() && !(e.class == ErrClass::SchemaError && e.stage == vf_df::Stage::Optimize) => {
